@@ -4,6 +4,11 @@ Fail-closed: recognises exactly the idioms used by the pinned source (listed in 
 section 4, C10) and raises TranslatorError on anything else.  The same structured table is
 returned to the harness (generators, canonicalisation of real objects).
 
+Next to this transcription the same table is MEASURED on the running code (c10_measure.py, section "Translator
+robustness" of design_notes/C10.md); `analyse` below combines the two: recognised source -> the transcription is
+the Gen file and must reproduce every measured observation; unrecognised source -> the Gen file is generated
+from the measured table; neither -> fail closed.
+
 Flattening (trusted, exercised by the correspondence check):
   * tail calls `return self.y_to_proto(a.sub | a, msg)` are inlined in execution order, the
     source of an inlined statement is the dotted path (`downloadablemedia_attributes.url`);
@@ -648,8 +653,13 @@ def _coq_ck(ck, clsname_of=lambda c: c):
 
 
 def emit(tab):
+    origin = tab.get("origin")
     o = ["(* GENERATED by harness/translators/c10_converter.py — do not edit.",
-         "   Sources: %s *)" % ", ".join(tab["files"]),
+         "   Sources: %s *)" % ", ".join(tab["files"])]
+    if origin:       # only on the measured-only path: the syntactic path's file stays byte-identical
+        o.append("(* Table MEASURED on the running code by harness/translators/c10_measure.py: %s *)"
+                 % origin.replace("*)", "* )").replace("(*", "( *").replace('"', "'"))
+    o += [
          "From Coq Require Import Ascii.",
          "From YV Require Import Common.Tac C10.C10Model.",
          "Open Scope name_scope.", "",
@@ -672,20 +682,85 @@ def emit(tab):
     return "\n".join(o)
 
 
-def regenerate(repo=None, out=None):
-    from .. import env
-    repo = repo or env.REPO
-    out = out or os.path.join(env.VERIF, "coq", "Gen", "C10Table.v")
-    tab = translate(repo)
-    text = emit(tab)
+def _write_if_changed(out, text):
     os.makedirs(os.path.dirname(out), exist_ok=True)
     old = open(out).read() if os.path.exists(out) else None
     if old != text:
         with open(out, "w") as f:
             f.write(text)
+
+
+def analyse(repo=None, out=None, scratch=None):
+    """Both extractions of the converter table, side by side (never raises).
+
+    -> dict(tab            the table the Gen file was generated from (JSON-normalised) or None,
+            path           "syntactic+measured (agree)" | "syntactic+measured (DISAGREE)" |
+                           "syntactic only (measurement unavailable: ...)" |
+                           "measured only (source shape not recognised: ...)" | "none (...)",
+            syntactic_error, measure_error, disagreements=[...], undetermined=[...], measured=<result dict>)
+
+    * source recognised by the ast translator: the Gen file is the transcription (byte-identical to what the
+      translator alone produced); the measured observations must be reproduced by it (agreement check);
+    * source not recognised: the Gen file is generated from the measured table, provided every column was
+      determined; otherwise fail closed (tab = None), naming both reasons."""
+    import json
+    from .. import env
+    from . import c10_measure
+    repo = repo or env.REPO
+    out = out or os.path.join(env.VERIF, "coq", "Gen", "C10Table.v")
+    res = {"tab": None, "path": None, "syntactic_error": None, "measure_error": None, "disagreements": [],
+           "undetermined": [], "measured": None}
+    syn = None
+    try:
+        syn = json.loads(json.dumps(translate(repo)))
+    except Exception as e:
+        res["syntactic_error"] = "%s: %s" % (type(e).__name__, e)
+    meas = None
+    try:
+        meas = c10_measure.measure(repo, syntactic=syn, scratch=scratch)
+        res["measured"] = dict((k, meas.get(k)) for k in ("stats", "notes", "wall_s", "undetermined"))
+        res["undetermined"] = meas.get("undetermined") or []
+    except Exception as e:
+        res["measure_error"] = "%s: %s" % (type(e).__name__, e)
+    if syn is not None:
+        res["tab"] = syn
+        if meas is None:
+            res["path"] = "syntactic only (measurement unavailable: %s)" % res["measure_error"][:300]
+        else:
+            agr = meas.get("agreement") or {"ok": False, "mismatches": [{"why": "no agreement result"}]}
+            res["agreement"] = dict((k, agr.get(k)) for k in ("ok", "checked_probes", "representation_differences"))
+            if agr.get("ok"):
+                res["path"] = "syntactic+measured (agree)"
+            else:
+                res["path"] = "syntactic+measured (DISAGREE)"
+                res["disagreements"] = agr.get("mismatches") or []
+        _write_if_changed(out, emit(syn))
+    elif meas is not None and meas.get("table") is not None:
+        tab = meas["table"]
+        res["path"] = "measured only (source shape not recognised: %s)" % res["syntactic_error"][:300]
+        tab["origin"] = res["path"]
+        res["tab"] = tab
+        _write_if_changed(out, emit(tab))
+    else:
+        why = "syntactic: %s" % res["syntactic_error"]
+        if meas is None:
+            why += "; measured: %s" % res["measure_error"]
+        else:
+            why += "; measured: undetermined " + "; ".join("%s (%s)" % (u["column"], u["why"][:160])
+                                                          for u in res["undetermined"][:4])
+        res["path"] = "none (%s)" % why[:900]
     try:    # coq/Gen/C10Probes.v (needed by C10/C10Inst.v) — also rewritten by every check run
         from ..props import C10 as _p
         _p.emit_probes(_p.Info(_p.load_baseline()))
     except Exception:
         pass
-    return tab
+    return res
+
+
+def regenerate(repo=None, out=None, scratch=None):
+    """compatibility wrapper: the table the Gen file was generated from; TranslatorError when neither the
+    syntactic nor the measured path produced one"""
+    res = analyse(repo, out, scratch)
+    if res["tab"] is None:
+        raise TranslatorError(res["path"])
+    return res["tab"]
